@@ -21,7 +21,7 @@ THEOREMS = [
     "Typedpy.C13.counterexample_union_duplicate", "Typedpy.C13.statement_false",
     "Typedpy.C13.none_first_equiv", "Typedpy.C13.none_inner_optional", "Typedpy.C13.hasNoneOpt_position",
     "Typedpy.C13.tuple_single_equiv", "Typedpy.C13.none_default_equiv",
-    "Typedpy.C13.factory_default_equiv", "Typedpy.C13.counterexample_factory_once",
+    "Typedpy.C13.factory_default_equiv", "Typedpy.C13.fixed_factory_builtin_class",
     "Typedpy.C13.equiv_example",
 ]
 RULE = ("class bodies of 1-3 fields; each field an abstract meaning tree (scalar / constrained field literal / bare or "
@@ -69,7 +69,7 @@ def pre_build():
 
 
 def cases(rng, tier):
-    return S.gen_cases(rng, tier, 480 if tier == "quick" else 3200)
+    return S.gen_cases(rng, tier, 480 if tier == "quick" else 2400)
 
 
 def search_cases(rng, tier):
